@@ -592,3 +592,53 @@ def rand_only(ctx, comp, specdir, trace_mod, trace_cfg, gocmd, n, ln, env=None, 
             raise Inconclusive("the harness itself panicked (no library frame on the stack): %s" % json.dumps(bad)[:600])
         ctx.violation("%s: abstract spec rejects event %d of a real-code trace: %s" % (comp, line - start, json.dumps(bad)[:300]), rp,
                       key="%s/%s/%s" % (comp, kind, bad.get("ev")))
+
+
+# -------------------------------------------------------------------- E5: TLC-generated cases
+def case_component(ctx, name, specdir, module, cfgs, gocmd, overlays=(), extra_args=(), timeout=3000, tlc_timeout=1800, workers=1):
+    """TLC evaluates the TLA+ definitions on every generated input and prints (input, expected)
+    cases; the Go runner executes the real functions and compares. A disagreement contradicts the
+    abstract definition directly: VIOLATION."""
+    outs = []
+    ncases = 0
+    for cfg in cfgs:
+        r = ctx.tlc(specdir, module, cfg, workers=workers, timeout=tlc_timeout, tag="%s_%s" % (name, os.path.splitext(cfg)[0]))
+        if r["errors"]:
+            raise Inconclusive("TLC failed while generating cases (%s %s):\n%s" % (module, cfg, r["tail"]))
+        n = int(subprocess.run(["grep", "-c", '^"{', r["out"]], capture_output=True, text=True).stdout.strip() or 0)
+        if n == 0:
+            raise Inconclusive("TLC generated no cases (%s %s):\n%s" % (module, cfg, r["tail"]))
+        ncases += n
+        outs.append(r["out"])
+        ctx.cov["tlc_runs"].append({"module": module, "cfg": cfg, "cases": n, "wall_s": r["wall_s"]})
+        log("TLC %s %s: %d cases, %.1fs" % (module, cfg, n, r["wall_s"]))
+    ctx.cov["states"] += ncases
+    ctx.cov["transitions"] += ncases
+    ctx.copy_repo(overlays)
+    binp = ctx.go_build(gocmd)
+    outd = os.path.join(ctx.out, name)
+    os.makedirs(outd, exist_ok=True)
+    rr = subprocess.run([binp, "-cases", ",".join(outs), "-out", outd, "-seed", str(ctx.seed), "-tier", ctx.tier] + list(extra_args),
+                        capture_output=True, text=True, env=GOENV, timeout=timeout)
+    if rr.returncode != 0:
+        if "panic:" in rr.stderr or "fatal error" in rr.stderr:
+            inlib = "welllog/golib" in rr.stderr.replace("golib/verifshim", "")
+            if inlib:
+                ctx.violation("%s: the real code crashed the process: %s" % (name, rr.stderr[:400]), {"component": name, "stderr": rr.stderr[:4000]}, key="%s/crash" % name)
+                return None
+        raise Inconclusive("case runner %s failed: %s" % (gocmd, rr.stderr[-2000:]))
+    st = read_json(os.path.join(outd, gocmd + "_cases.json"))
+    log("cases %s: %d cases, %d calls of real functions, %d mismatches" % (name, st["cases"], st["calls"], st["n_mismatch"]))
+    ctx.cov["traces_validated_against_impl"] += st["cases"]
+    ctx.cov["engines"].append({"engine": "E5 caserun", "component": name, "cases": st["cases"], "calls": st["calls"], "per_fn": st["per_fn"],
+                               "nontrivial": st["distinct_nontrivial"], "extra": st.get("extra")})
+    ctx.cov["samples"] += st["samples"][:3]
+    ctx.cov["evaluations"] = ctx.cov.get("evaluations", 0) + st["calls"]
+    ctx.cov["distinct_nontrivial"] = ctx.cov.get("distinct_nontrivial", 0) + st["distinct_nontrivial"]
+    ctx.cov.setdefault("rule", "every input of the bounded grammar is enumerated by TLC (exhaustive within the stated bounds); each case is concretised and executed on the real function; non-trivial = cases counted by the runner as exercising more than the empty/identity path")
+    for m in st["mismatches"]:
+        if isinstance(m.get("actual"), str) and m["actual"].startswith("HARNESS:"):
+            raise Inconclusive("the harness itself panicked: %s" % m["actual"][:800])
+        ctx.violation("%s.%s: %s: expected %s, got %s on input %s" % (name, m["fn"], m["kind"], json.dumps(m["expected"])[:150], json.dumps(m["actual"])[:150], json.dumps(m["input"])[:200]),
+                      dict(m, component=name + "Case"), key="%s/%s/%s" % (name, m["fn"], m["kind"]))
+    return st
